@@ -6,6 +6,6 @@ From Coq Require Import Extraction ExtrOcamlBasic List NArith.
 From GmsmVerif Require Import Lib.Outcome SM4.SM4Spec SM4.ModesSpec SM4.ModesModel.
 Extraction Language OCaml.
 Extraction "sm4modes_model.ml"
-  Sm4Ecb Sm4Cbc Sm4CFB Sm4OFB Sm4Ecb_core Sm4Cbc_core Sm4CFB_core Sm4OFB_core helper_mem array mkSlice
+  Sm4Ecb Sm4Cbc Sm4CFB Sm4OFB Sm4Ecb_mem Sm4Cbc_mem Sm4CFB_mem Sm4OFB_mem array mkSlice
   SetIV init_pkg mkPkg pkcs7Padding pkcs7UnPadding modes_run mkMCall
   sm4_round_keys sm4_encrypt_rk sm4_decrypt_rk.
